@@ -588,6 +588,18 @@ theorem; channel `rest`, stream `reent`, then looks for the failing input. -/
 theorem code_writes_exact :
     Generated.CodeWrites.codeWrites = allowedCodeWrites.map (·.1) := by decide
 
+/-- Package-level variables that hold, or are keyed by, compiled-code objects, and what they are. -/
+def allowedCodeGlobals : List ((String × String) × String) :=
+  [ (("MissingFunction", "*SexpFunction"), "the constant placeholder returned beside an error; a Go-function value (user = true), never executed as bytecode, never written"),
+    (("sxArrayOf", "*SexpFunction"), "the builtin constructor `arrayOf` (a Go function wrapped by MakeUserFunction), assigned once at package initialisation"),
+    (("sxSliceOf", "*SexpFunction"), "the builtin constructor `sliceOf`, as sxArrayOf") ]
+
+/-- **code_globals_exact** (table fact): no package-level variable is a side table of compiled-code
+objects — a `map[*Loop]int` noting a depth per loop would be state of the code exactly as a field
+is, without any field being written. The three variables that exist are constants. -/
+theorem code_globals_exact :
+    Generated.CodeWrites.codeGlobals = allowedCodeGlobals.map (·.1) := by decide
+
 /-- every instruction type of the checker's instruction set is a compiled-code type of that table -/
 theorem code_types_cover_instructions :
     ∀ t ∈ Generated.InstrSet.instrTypes, t ∈ Generated.CodeWrites.codeTypes := by decide
